@@ -301,13 +301,24 @@ theorem fixLine_ws (g i a : Str) (hg : g.all isSpace = true) (hi : i.all isSpace
     simp [h1, h]
 
 /-- line state: at the start of a physical line, or after a non-blank character of it -/
-def LineInv (sl : Bool) (xo yo : Str) : Prop :=
+def LineInv (sl am : Bool) (xo yo : Str) : Prop :=
   (sl = true → xo = [] ∧ yo = []) ∧
-  (sl = false → noNl xo = true ∧ noNl yo = true ∧ lead xo < xo.length ∧ lead yo < yo.length)
+  (sl = false → noNl xo = true ∧ noNl yo = true ∧
+    ((lead xo < xo.length ∧ lead yo < yo.length) ∨ (am = true ∧ xo = yo ∧ xo.all isSpace = true)))
 
-theorem lineInv_closed (xo yo : Str) (h1 : noNl xo = true) (h2 : noNl yo = true) (h3 : lead xo < xo.length)
-    (h4 : lead yo < yo.length) : LineInv false xo yo :=
-  ⟨fun h => Bool.noConfusion h, fun _ => ⟨h1, h2, h3, h4⟩⟩
+theorem lineInv_closed (am : Bool) (xo yo : Str) (h1 : noNl xo = true) (h2 : noNl yo = true)
+    (h3 : lead xo < xo.length) (h4 : lead yo < yo.length) : LineInv false am xo yo :=
+  ⟨fun h => Bool.noConfusion h, fun _ => ⟨h1, h2, Or.inl ⟨h3, h4⟩⟩⟩
+
+/-- with `am = false` the line is closed -/
+theorem lineInv_closed_of (xo yo : Str) (h : LineInv false false xo yo) :
+    noNl xo = true ∧ noNl yo = true ∧ lead xo < xo.length ∧ lead yo < yo.length := by
+  obtain ⟨h1, h2, h3⟩ := h.2 rfl
+  rcases h3 with ⟨a, b⟩ | ⟨c, _, _⟩
+  · exact ⟨h1, h2, a, b⟩
+  · cases c
+
+theorem trimTo_self (g : Str) : trimTo g.length g = g := by simp [trimTo]
 
 /-- a single-line visible token -/
 theorem step_word (sl : Bool) (xo yo g i text v X' Y' Z' : Str)
